@@ -111,6 +111,21 @@ CHECKS = {
          "should_exclude_with / should_run_with compared with the formula of the statement; behave.active_tag.python and python_feature categories against the running interpreter.",
          "Trusts the 20-line formula evaluator; only the running interpreter/platform is witnessed for the shipped providers.",
          "DESIGN.md section 5, C19"),
+
+ "C05": ("model_checking",
+         "explicit-state breadth-first search over line histories of the real Parser to a fixpoint of a canonical parser-state abstraction (5 entry points), validated by a no-dedup enumeration of all line sequences up to length 3/4, plus every single-line mutation of valid documents with a reference acceptor for the catalogued faults",
+         "Alphabet of ~28 line kinds (block keywords in two languages, step keywords, tags, malformed tags, table rows, doc-string delimiters, free text, comments, language comments, blank); from every new abstract state every line kind is fed to the real "
+         "parser and the history also terminated; invariant: terminates with model / None / ParserError whose line lies inside the text, never another exception; the no-dedup enumeration confirms (abstract state, line kind) determines the outcome class; every "
+         "insert/delete/duplicate/swap/truncate mutation of rendered documents keeps the invariant and each catalogued fault kind is reported at the injected line wherever the reference acceptor calls it a fault.",
+         "Trusts the canonical abstraction (validated by the no-dedup cross-check to the stated depth) and the reference acceptor; line kinds outside the alphabet are not covered.",
+         "DESIGN.md section 5, C05"),
+ "C04": ("model_checking",
+         "exhaustive enumeration of abstract documents x layouts x all 80 languages x every keyword alias rendered to Gherkin and compared with the real parse result, plus the C05 state search recording that every accepted line is attached to the element the grammar says",
+         "Block sequences up to 4 (thorough 6) blocks with descriptions, tags on 1-2 lines, trailing comments, all keyword sequences up to length 3, doc-strings of both quote styles, tables with escaped pipes/empty cells/unicode; layout deviations "
+         "(indent styles, blank/comment line at every position); every language in the keyword table x every alias of every keyword; entry points parse_feature, parse_file, parse_steps, parse_scenario, parse_rule, parse_tags; "
+         "ModelDescriptor table/doc-string round trip. Oracle: the abstract document that was rendered (order, keywords as written, names, tags with lines, step types with And/But/* inheritance, texts, cells, 1-based lines).",
+         "Trusts the renderer vlib/gherkin_render.py; the keyword table is read from etc/gherkin/gherkin-languages.json so that a truncated i18n.py is visible; CRLF and lower-case keywords are not varied.",
+         "DESIGN.md section 5, C04"),
 }
 PENDING_REASON = "check not built yet in this round (planned, see DESIGN.md section 5); nothing is claimed for it so far"
 
